@@ -150,9 +150,9 @@ def consumer_text(c, st, nparams):
         f = FMAPS[c[1]].format(k=kv)
         return "find_map(|x| %s)" % f, ".find_map(|x| %s)" % f, "[find_map,%d]" % c[1], (False, False), False
     if name == "fold":
-        return "fold(0i64, |a, x| a * 7 + %s)" % kv, ".fold(0i64, |a, x| a * 7 + %s)" % kv, "[fold]", (False, False), False
+        return "fold(0i64, |a, x| (a * 7 + %s) %% 1000003)" % kv, ".fold(0i64, |a, x| (a * 7 + %s) %% 1000003)" % kv, "[fold]", (False, False), False
     if name == "rfold":
-        return "rfold(0i64, |a, x| a * 7 + %s)" % kv, ".rfold(0i64, |a, x| a * 7 + %s)" % kv, "[rfold]", (True, False), True
+        return "rfold(0i64, |a, x| (a * 7 + %s) %% 1000003)" % kv, ".rfold(0i64, |a, x| (a * 7 + %s) %% 1000003)" % kv, "[rfold]", (True, False), True
     if name == "nth":
         i = len(nparams)
         nparams.append("n%d" % i)
